@@ -11,14 +11,14 @@ H = "harness/c18.py"
 
 def plan(tier: str, seed: int) -> Plan:
     thorough = tier == "thorough"
-    T = 500 if thorough else 170
+    T = 500 if thorough else 220
     conds: List[Condition] = []
     for fn, n, plumb in (("path_cmd", 18, [0, 7]), ("pointer_cmd", 13, [1, 6]), ("patch_cmd", 13, [0, 2])):
         step = 3 if fn == "path_cmd" else 4
         for lo in range(0, n, step):
-            conds.append(Condition(f"{fn}:semantics:{lo}-{lo + step - 1}", "cli", H, fn, {"mode": "semantics", "lo": lo, "hi": lo + step - 1, "ndocs": 6 if thorough else 4}, T,
+            conds.append(Condition(f"{fn}:semantics:{lo}-{lo + step - 1}", "cli", H, fn, {"mode": "semantics", "lo": lo, "hi": lo + step - 1, "ndocs": 7 if thorough else 5}, T,
                                    required=False,
-                                   bounds=f"expressions {lo}..{lo + step - 1} of the {n}-entry pool x 4 (thorough 6) documents (object, array, truncated, not UTF-8, string, empty) x "
+                                   bounds=f"expressions {lo}..{lo + step - 1} of the {n}-entry pool x 5 (thorough 7) documents (object, array with non-finite numbers, truncated, not UTF-8, UTF-8 with a byte-order mark, string, empty) x "
                                           "{no-unicode-escape, debug, type checks / uri-decode, expression inline|file}; output options fixed"))
         conds.append(Condition(f"{fn}:plumbing", "cli", H, fn, {"mode": "plumbing", "plumb_e": plumb}, T, required=False,
                                bounds="every option combination (pretty, output stdout|file, document file|stdin, ...) x one accepted and one rejected "
